@@ -28,7 +28,7 @@ def scope_of(prog, f):
             return None                 # trait impls: method names are fixed by the trait
         if not re.search(r'<impl>::\w+$', f.name):
             return None
-        return 'impl:' + (M.type_head(st) or '?')
+        return 'impl:' + (M.type_head(st) or '?') + '@' + f.impl_span.split(':')[0]
     if not re.fullmatch(r'[\w:]+', f.name) or not f.body_span:
         return None
     return 'file:' + f.body_span.split(':')[0]
@@ -88,15 +88,55 @@ def renames(prog, crate):
 _TY_ARGS = r'(?:::<(?:[^<>]|<(?:[^<>]|<[^<>]*>)*>)*>|<(?:[^<>]|<(?:[^<>]|<[^<>]*>)*>)*>)?'
 
 
+def _skip_angle(text, i):
+    """text[i] == '<': index just after the matching '>' ('->' and '=>' do not close)"""
+    d = 0
+    n = len(text)
+    while i < n:
+        c = text[i]
+        if c == '<':
+            d += 1
+        elif c == '>' and text[i - 1] not in '-=':
+            d -= 1
+            if d == 0:
+                return i + 1
+        elif c == '\n':
+            return -1
+        i += 1
+    return -1
+
+
+def _rename_method_uses(text, ty, old, new):
+    """`Ty::old`, `Ty::<args>::old`, `Ty<args>::old` -> ...::new (generic arguments may nest arbitrarily)"""
+    out, pos = [], 0
+    for m in re.finditer(r'\b' + re.escape(ty) + r'(?![\w])', text):
+        i = m.end()
+        if i < pos:
+            continue
+        j = i
+        if text.startswith('::<', j):
+            j = _skip_angle(text, j + 2)
+        elif text.startswith('<', j):
+            j = _skip_angle(text, j)
+        if j < 0:
+            continue
+        if text.startswith('::' + old, j) and not re.match(r'\w', text[j + 2 + len(old):j + 3 + len(old)] or ' '):
+            out.append(text[pos:j + 2])
+            out.append(new)
+            pos = j + 2 + len(old)
+    out.append(text[pos:])
+    return ''.join(out)
+
+
 def rewrite(text, ren, prog):
     """apply the renames to the MIR text (names only)"""
     for sc, old, new, f in ren:
         o = re.escape(old)
         if sc.startswith('impl:'):
-            ty = re.escape(sc[5:])
+            tyname = sc[5:].split('@')[0]
             text = text.replace(f'<impl at {f.impl_span}>::{old}', f'<impl at {f.impl_span}>::{new}') if False else \
                 re.sub(r'(<impl at ' + re.escape(f.impl_span) + r'>::)' + o + r'(?![\w])', r'\g<1>' + new, text)
-            text = re.sub(r'(\b' + ty + _TY_ARGS + r'::)' + o + r'(?![\w])', r'\g<1>' + new, text)
+            text = _rename_method_uses(text, tyname, old, new)
         else:
             path = sc[5:]
             mod = os.path.basename(os.path.dirname(path)) if path.endswith('/mod.rs') or path.endswith('/lib.rs') else os.path.basename(path)[:-3]
